@@ -56,6 +56,19 @@ template<class T> requires __big<T>::v struct vector<T> : __bigflat<T, __cap<T>:
   size_t size() const { return n; } bool empty() const { return n == 0; }
   iterator begin() { return iterator(this, 0); } iterator end() { return iterator(this, n); }
   const_iterator begin() const { return const_iterator(this, 0); } const_iterator end() const { return const_iterator(this, n); }
+  // erase / insert of one element: the element objects stay where they are, their contents move (constant indices only)
+  iterator erase(iterator at) {
+    __CPROVER_assert(at.i >= 0 && at.i < n, "ministl: erase position out of range (UB)");
+    for (int k = 0; k + 1 < VCAP; k++) if (k >= at.i && k + 1 < n) new (p[k]) T(*p[k + 1]);
+    n--; return at;
+  }
+  iterator insert(iterator at, const T& x) {
+    __CPROVER_assert(n < VCAP, "ministl: vector capacity (model bound)"); __CPROVER_assert(at.i >= 0 && at.i <= n, "ministl: insert position out of range (UB)");
+    T tmp(x);
+    for (int k = VCAP - 1; k > 0; k--) if (k > at.i && k <= n) new (p[k]) T(*p[k - 1]);
+    for (int k = 0; k < VCAP; k++) if (k == at.i) new (p[k]) T(tmp);
+    n++; return at;
+  }
 };
 
 // ---- vectors of SMALL class-type elements that the code under test pushes / inserts / erases at symbolic positions (Token, ParseError).
